@@ -1,6 +1,12 @@
 import CGV.Props.C07
+import CGV.Props.C07Path
 #print axioms CGV.C07.C07_symbols_inverse
 #print axioms CGV.C07.C07_single_bond_silent
 #print axioms CGV.C07.C07_marker_fresh
 #print axioms CGV.C07.C07_write_single
 #print axioms CGV.C07.lowestFree_spec
+#print axioms CGV.C07.C07_path_roundtrip
+#print axioms CGV.C07.C07_path_text
+#print axioms CGV.C07.writeGraph_path
+#print axioms CGV.C07.writeLoop_path
+#print axioms CGV.C07.writeStep_path
